@@ -7,6 +7,7 @@
   `inlineUniformB`).
 -/
 import Proofs.DelApplies
+import Proofs.FlatInsertCore
 import Proofs.LevelReplace
 namespace PM
 open PM.FromDom (LeafOk)
@@ -575,7 +576,7 @@ theorem close_around_applies (S : Schema) (hdet : DetS S) (hleaf : LeafOk S) (hf
       exact hl
   -- the replace with the gap content in place
   rw [hpl0] at hcf
-  obtain ⟨ffsB, fills, tail, b, hlenB, htfF, htft, hnorm, X, hX⟩ := close_core S hdet hleaf hfl hcl hts hjc hro hf htg hv hn
+  obtain ⟨ffsB, fills, tail, b, hlenB, htfF, htft, hbt, hnorm, X, hX⟩ := close_core S hdet hleaf hfl hcl hts hjc hro hf htg hv hn
     hattrs hpf hgpair (by omega) st0.frontier qD [] hF hqtop mv placed hcf _ (fappend _ _) hnG
     (by rw [fappend_toks, htkX]) (fappend_norm _ _ hnX hnG) (fappend_checkKids S _ _ hkX hkG) hbLok
     (fun Xn T hXn _ _ => seams_gap (ftoks K) _ Xn f T hKn (by rw [ftoks_length]; exact Rf.le) haf hXn hlast)
@@ -587,7 +588,15 @@ theorem close_around_applies (S : Schema) (hdet : DetS S) (hleaf : LeafOk S) (hf
     hlenB htfF htft
   have hsl : (Node.elem ty0 a0 m0 K).slice t (rt.end_ rt.depth)
       = .ok ⟨tailCut (rt.parent.kids.drop (rt.index rt.depth)) rt.textOffset, 0, 0⟩ := hslice
-  simp only [Schema.apply, Bool.false_eq_true, if_false, hsl, Slice.insertAt, Nat.zero_add, hins,
+  -- the position `insert = 0` lies inside the slice: every open level is a node of the content
+  have hia : Slice.insertAt S ⟨leftS ffsB fills [] ++ tail, ffsB.length, b⟩ 0
+      (tailCut (rt.parent.kids.drop (rt.index rt.depth)) rt.textOffset)
+      = .ok (some ⟨leftS ffsB fills (tailCut (rt.parent.kids.drop (rt.index rt.depth)) rt.textOffset) ++ tail,
+          ffsB.length, b⟩) := by
+    have hsz := leftS_size_ge ffsB fills [] hlenB
+    rw [insertAt_of_le (by simp only [Slice.size, fsize_append]; omega)]
+    simp only [Slice.insertAtIn, Nat.zero_add, hins]
+  simp only [Schema.apply, Bool.false_eq_true, if_false, hsl, hia,
     Schema.fromReplace, Schema.replace, hX, Except.map]
   exact ⟨_, rfl⟩
 
